@@ -476,4 +476,87 @@ theorem mode_sound : Sound ModeO.machine ModeAdm Any ModeO.Coherent where
   inv_preserved s op _ h := mode_inv s op h
   result_depends_on_cfg s s' op hp _ ha h h' hc := mode_result s s' op hp ha h h' hc
 
+/-! ### Skein -/
+theorem skein_doUpdate_cfg (s : SkeinO.State) (M : List Nat) (bl : Option Nat) : (SkeinO.doUpdate s M bl).1.cfg = s.cfg := by
+  unfold SkeinO.doUpdate; split
+  · rfl
+  · split <;> rfl
+
+theorem skein_cfg (s : SkeinO.State) (op : SkeinO.Op) : (SkeinO.step s op).1.cfg = s.cfg := by
+  cases op with
+  | call M bl =>
+    simp only [SkeinO.step]; split
+    · rfl
+    · split <;> rfl
+  | update M => exact skein_doUpdate_cfg s M none
+  | initstate => rfl
+
+/-- `__call__` never reads the `G` an earlier call left behind: `_initstate()` assigns it first -/
+theorem skein_result (s s' : SkeinO.State) (op : SkeinO.Op) (hp : SkeinO.isProbe op = true) (hc : s.cfg = s'.cfg) :
+    (SkeinO.step s op).2 = (SkeinO.step s' op).2 := by
+  cases op with
+  | call M bl =>
+    simp only [SkeinO.step]; rw [hc]
+  | update M => cases hp
+  | initstate => cases hp
+
+theorem skein_sound : Sound SkeinO.machine Any Any Havoc where
+  cfg_init _ := rfl
+  cfg_preserved s op := skein_cfg s op
+  adm_reconf _ _ _ := trivial
+  inv_init _ _ := trivial
+  inv_preserved _ _ _ _ := trivial
+  result_depends_on_cfg s s' op hp _ _ _ _ hc := skein_result s s' op hp hc
+
+/-- (G assigned so far, pending exception) read as the result of the method so far -/
+def stagesRes (a : List Nat × Option Err) : Except Err (List Nat) :=
+  match a.2 with
+  | none => .ok a.1
+  | some e => .error e
+
+theorem stagesRes_runStage (a : List Nat × Option Err) (go : Bool) (M : List Nat) (ty : String) :
+    stagesRes (SkeinO.runStage a go M ty) = (stagesRes a >>= fun G => if go then Skein.stage G M ty else pure G) := by
+  obtain ⟨G, e⟩ := a
+  cases e with
+  | some e => rfl
+  | none =>
+    cases go with
+    | false => rfl
+    | true =>
+      simp only [SkeinO.runStage, stagesRes, if_true, bind, Except.bind]
+      cases Skein.stage G M ty <;> rfl
+
+/-- the stage-by-stage `_initstate` of the object machine returns what the functional model `Skein.initstate` returns -/
+theorem skein_doInit_eq (c : Skein.Cfg) : stagesRes (SkeinO.doInit c) = Skein.initstate c := by
+  have ok_bind : ∀ (x : List Nat) (f : List Nat → Except Err (List Nat)), (Except.ok x >>= f) = f x := fun _ _ => rfl
+  unfold SkeinO.doInit Skein.initstate Skein.optStage
+  simp only [stagesRes_runStage, if_true, bind_assoc]
+  simp only [stagesRes, ok_bind]
+
+/-- on a new object `__call__` is the functional model `Skein.call` (the model of properties C12/C13) -/
+theorem skein_call_eq (s : SkeinO.State) (M : List Nat) (bl : Option Nat) :
+    (SkeinO.step s (.call M bl)).2 = bytesRes (Skein.call s.cfg M bl) := by
+  have h := skein_doInit_eq s.cfg
+  unfold Skein.call
+  rw [← h]
+  simp only [SkeinO.step, stagesRes]
+  split
+  · rename_i e he; simp only [he]; rfl
+  · rename_i he
+    simp only [he, bind, Except.bind]
+    cases Skein.updateMsg s.cfg (SkeinO.doInit s.cfg).1 M bl <;> rfl
+
+/-! ### Threefish -/
+theorem threefish_result (s s' : ThreefishO.State) (op : ThreefishO.Op) (hc : s.cfg = s'.cfg) :
+    (ThreefishO.step s op).2 = (ThreefishO.step s' op).2 := by
+  cases s; cases s'; simp only at hc; subst hc; rfl
+
+theorem threefish_sound : Sound ThreefishO.machine Any Any Havoc where
+  cfg_init _ := rfl
+  cfg_preserved _ _ := rfl
+  adm_reconf _ _ _ := trivial
+  inv_init _ _ := trivial
+  inv_preserved _ _ _ _ := trivial
+  result_depends_on_cfg s s' op _ _ _ _ _ hc := threefish_result s s' op hc
+
 end Proofs.Lemmas.ObjectsSound
